@@ -28,6 +28,7 @@ Record round := {
 Record hist_case := {
   hc_cfgs : list cfg;
   hc_hashes : list ((Z * chandef) * list Z);         (* MakeChannelHash of every voted (id, definition) *)
+  hc_rejected : bool;                                (* the plugin factory refused one of the configurations: no rounds *)
   hc_rounds : list round }.
 
 Global Instance bigint_eq_dec : EqDecision bigint. Proof. solve_decision. Defined.
@@ -337,13 +338,25 @@ Definition eval_round (h : Z -> chandef -> list Z) (cfgs : list cfg) (a : acc) (
          a_errors := S (a_errors a) |}
   end.
 
+(* the configurations the model's decoder accepts: version 0 with interval 0, version 1 with interval >= 1 *)
+Definition cfg_valid (cf : cfg) : bool :=
+  if c_pver cf =? 0 then c_interval cf =? 0 else if c_pver cf =? 1 then 1 <=? c_interval cf else false.
 Definition eval_hist (c : hist_case) : acc :=
   let h := hash_table (hc_hashes c) in
+  let all_valid := forallb cfg_valid (hc_cfgs c) in
+  let a :=
   fold_left (eval_round h (hc_cfgs c))
     (hc_rounds c)
     {| a_states := map (fun _ => is_init) (hc_cfgs c); a_pred_last := ∅;
        a_mismatch := false; a_c02 := false; a_c03 := false; a_c04 := false; a_c05 := false; a_c06 := false;
-       a_c14 := false; a_c18 := false; a_rounds := O; a_reports := O; a_promotions := O; a_retirements := O; a_errors := O |}.
+       a_c14 := false; a_c18 := false; a_rounds := O; a_reports := O; a_promotions := O; a_retirements := O; a_errors := O |} in
+  (* the factory accepts a configuration exactly when it is valid (model agreement); an invalid configuration that is
+     accepted is a C03 violation in itself: the window theorems are about accepted = valid configurations *)
+  {| a_states := a_states a; a_pred_last := a_pred_last a;
+     a_mismatch := a_mismatch a || negb (Bool.eqb (hc_rejected c) (negb all_valid));
+     a_c02 := a_c02 a; a_c03 := a_c03 a || (negb all_valid && negb (hc_rejected c)); a_c04 := a_c04 a; a_c05 := a_c05 a;
+     a_c06 := a_c06 a; a_c14 := a_c14 a; a_c18 := a_c18 a; a_rounds := a_rounds a; a_reports := a_reports a;
+     a_promotions := a_promotions a; a_retirements := a_retirements a; a_errors := a_errors a |}.
 
 (* result: mismatching histories; failing histories for C02, C03, C04, C05, C06, C14, C18; totals *)
 Definition hist_eval (cs : list hist_case) :=
